@@ -145,6 +145,115 @@ Section Tree.
   Qed.
 End Tree.
 
+(* generic facts about the loop, for every cfg and every store *)
+Section LoopFacts.
+  Variables (St VS : Type).
+  Variable mk1 : St -> nat -> St * VS.
+  Variable app : bool -> St -> VS -> nat -> St * VS.
+  Variable spare : VS -> bool.
+
+  Lemma istep_tree_key c st e a b v prev : eE (so_tree (istep St VS mk1 app spare c st e a b v prev)) = eE e.
+  Proof.
+    unfold istep.
+    repeat match goal with
+           | |- context [let '(_, _) := ?x in _] => destruct x
+           | |- context [if ?x then _ else _] => destruct x
+           | |- context [match ?x with Some _ => _ | None => _ end] => destruct x
+           end; reflexivity.
+  Qed.
+
+  (* the conditions of one loop iteration only depend on the interval ends *)
+  Definition c_se {V} (e : entry V) (b : Z) : bool := contains e b && (b <? eE e).
+  Definition c_curE {V} (e : entry V) (b : Z) : Z := if c_se e b then b else eE e.
+  Definition c_ss {V} (e : entry V) (a b : Z) : bool := (eS e <=? a) && (a <=? c_curE e b) && (eS e <? a).
+  Definition c_curS {V} (e : entry V) (a b : Z) : Z := if c_ss e a b then a else eS e.
+  Definition c_gap {V W} (c : cfg) (e : entry V) (a b : Z) (prev : option (entry W)) : bool :=
+    match prev with
+    | Some p => if fix_gap c then eE p + 1 <? c_curS e a b else eE p <? c_curS e a b
+    | None => false
+    end.
+
+  Lemma istep_nf c st e a b v prev :
+    istep St VS mk1 app spare c st e a b v prev =
+    let '(st1, lead) :=
+      match prev with
+      | None => if a <? eS e then let '(s1, x) := mk1 st v in (s1, [mkE a (eS e - 1) x]) else (st, [])
+      | Some _ => (st, [])
+      end in
+    let '(st2, nv) := if c_se e b then app true st1 (eV e) v else (st1, eV e) in
+    let '(st3, nv2) := app (fix_clip c) st2 (eV e) v in
+    let '(st4, gap) :=
+      match prev with
+      | Some p => if c_gap c e a b prev then let '(s4, x) := mk1 st3 v in (s4, [mkE (eE p + 1) (c_curS e a b - 1) x]) else (st3, [])
+      | None => (st3, [])
+      end in
+    {| so_tree := if c_se e b then mkE (b + 1) (eE e) (eV e) else mkE (c_curS e a b) (c_curE e b) nv2;
+       so_pend := lead ++ (if c_se e b then [mkE (c_curS e a b) (c_curE e b) nv2] else [])
+                       ++ (if c_ss e a b then [mkE (eS e) (a - 1) (eV e)] else []) ++ gap;
+       so_cur := mkE (c_curS e a b) (c_curE e b) nv2;
+       so_st := st4;
+       so_hz := spare (eV e) || match prev with Some p => eE p + 1 =? c_curS e a b | None => false end |}.
+  Proof.
+    unfold istep, c_gap, c_curS, c_ss, c_curE. fold (c_se e b). unfold contains.
+    destruct prev as [p|].
+    - destruct (c_se e b).
+      + destruct (app true st (eV e) v) as [st2 nv]. cbn [eS eE eV].
+        destruct ((eS e <=? a) && (a <=? b) && (eS e <? a)); cbn [eS eE eV];
+          destruct (app (fix_clip c) st2 (eV e) v) as [st3 nv2]; cbn [eS eE eV];
+          destruct (fix_gap c); match goal with |- context [?x <? ?y] => destruct (x <? y) end;
+          try destruct (mk1 st3 v); reflexivity.
+      + unfold contains. destruct ((eS e <=? a) && (a <=? eE e) && (eS e <? a)); cbn [eS eE eV];
+          destruct (app (fix_clip c) st (eV e) v) as [st3 nv2]; cbn [eS eE eV];
+          destruct (fix_gap c); match goal with |- context [?x <? ?y] => destruct (x <? y) end;
+          try destruct (mk1 st3 v); reflexivity.
+    - destruct (a <? eS e); [destruct (mk1 st v) as [s1 x]|].
+      all: destruct (c_se e b).
+      all: try (match goal with |- context [app true ?s ?o ?w] => destruct (app true s o w) as [st2 nv] end).
+      all: unfold contains; cbn [eS eE eV].
+      all: match goal with |- context [?x && ?y && ?z] => destruct (x && y && z) end; cbn [eS eE eV].
+      all: match goal with |- context [app (fix_clip ?cc) ?s ?o ?w] => destruct (app (fix_clip cc) s o w) as [st3 nv2] end.
+      all: cbn [eS eE eV]; reflexivity.
+  Qed.
+
+  Lemma iloop_keys c : forall es st a b v prev r' pd pv st' hz,
+    iloop St VS mk1 app spare c st es a b v prev = (r', pd, pv, st', hz) -> map eE r' = map eE es.
+  Proof.
+    induction es as [|e r IH]; intros st a b v prev r' pd pv st' hz H; cbn [iloop] in H.
+    - injection H as <- _ _ _ _. reflexivity.
+    - destruct (b <? eS e).
+      + injection H as <- _ _ _ _. reflexivity.
+      + destruct (iloop St VS mk1 app spare c (so_st (istep St VS mk1 app spare c st e a b v prev)) r a b v
+                        (Some (so_cur (istep St VS mk1 app spare c st e a b v prev)))) as [[[[r2 pd2] pv2] st2] hz2] eqn:Hrec.
+        injection H as <- _ _ _ _. cbn [map]. rewrite istep_tree_key. f_equal. eapply IH. exact Hrec.
+  Qed.
+
+  Lemma iloop_prev_some c : forall es st a b v p r' pd pv st' hz,
+    iloop St VS mk1 app spare c st es a b v (Some p) = (r', pd, pv, st', hz) -> pv <> None.
+  Proof.
+    induction es as [|e r IH]; intros st a b v p r' pd pv st' hz H; cbn [iloop] in H.
+    - injection H as _ _ <- _ _. discriminate.
+    - destruct (b <? eS e).
+      + injection H as _ _ <- _ _. discriminate.
+      + destruct (iloop St VS mk1 app spare c (so_st (istep St VS mk1 app spare c st e a b v (Some p))) r a b v
+                        (Some (so_cur (istep St VS mk1 app spare c st e a b v (Some p))))) as [[[[r2 pd2] pv2] st2] hz2] eqn:Hrec.
+        injection H as _ _ <- _ _. eapply IH. exact Hrec.
+  Qed.
+
+  (* the loop found nothing (prev stays nil) exactly when the first candidate lies beyond b *)
+  Lemma iloop_prev_none c es st a b v r' pd pv st' hz :
+    iloop St VS mk1 app spare c st es a b v None = (r', pd, pv, st', hz) ->
+    (pv = None <-> match es with [] => True | e :: _ => b < eS e end).
+  Proof.
+    intros H. destruct es as [|e r]; cbn [iloop] in H.
+    - injection H as _ _ <- _ _. tauto.
+    - destruct (Z.ltb_spec b (eS e)) as [Hlt|Hge].
+      + injection H as _ _ <- _ _. tauto.
+      + destruct (iloop St VS mk1 app spare c (so_st (istep St VS mk1 app spare c st e a b v None)) r a b v
+                        (Some (so_cur (istep St VS mk1 app spare c st e a b v None)))) as [[[[r2 pd2] pv2] st2] hz2] eqn:Hrec.
+        injection H as _ _ <- _ _. apply iloop_prev_some in Hrec. split; [intros; contradiction|lia].
+  Qed.
+End LoopFacts.
+
 (* ------------------------------------------------------------------ the instance on plain lists *)
 Notation PE := (entry (list nat)).
 Definition pmk1 (_ : unit) (v : nat) : unit * list nat := (tt, [v]).
@@ -215,7 +324,8 @@ Lemma pstep_shape e a b v prev :
   so_cur o = mkE (Z.max (eS e) (next_a a prev)) (Z.min (eE e) b) (eV e ++ [v])
   /\ forall x, (so_tree o = x \/ In x (so_pend o)) <-> In x (pieces e a b v prev).
 Proof.
-  intros Hab Hse Hsb Hna Hp. unfold pstep, istep, pieces, contains, pmk1, papp, prev_ok, next_a in *.
+  intros Hab Hse Hsb Hna Hp. unfold pstep. rewrite istep_nf.
+  unfold pieces, pmk1, papp, prev_ok, next_a, c_gap, c_curS, c_ss, c_curE, c_se, contains in *.
   destruct prev as [p|]; cbn [repaired fix_gap fix_clip].
   - destruct Hp as [Hp1 Hp2]. zcmp; cbn [andb orb negb eS eE eV] in *; try lia.
     all: cbn [so_cur so_tree so_pend In app]; zminmax; (split; [reflexivity|intros x; tauto]).
@@ -400,61 +510,6 @@ Proof.
   inversion Hall as [|? ? He Hall']; subst. rewrite lk_cons. destruct (Z.ltb_spec (eE e) q); [apply IH, Hall'|lia].
 Qed.
 
-(* generic facts about the loop, for every cfg and every store *)
-Section LoopFacts.
-  Variables (St VS : Type).
-  Variable mk1 : St -> nat -> St * VS.
-  Variable app : bool -> St -> VS -> nat -> St * VS.
-  Variable spare : VS -> bool.
-
-  Lemma istep_tree_key c st e a b v prev : eE (so_tree (istep St VS mk1 app spare c st e a b v prev)) = eE e.
-  Proof.
-    unfold istep.
-    repeat match goal with
-           | |- context [let '(_, _) := ?x in _] => destruct x
-           | |- context [if ?x then _ else _] => destruct x
-           | |- context [match ?x with Some _ => _ | None => _ end] => destruct x
-           end; reflexivity.
-  Qed.
-
-  Lemma iloop_keys c : forall es st a b v prev r' pd pv st' hz,
-    iloop St VS mk1 app spare c st es a b v prev = (r', pd, pv, st', hz) -> map eE r' = map eE es.
-  Proof.
-    induction es as [|e r IH]; intros st a b v prev r' pd pv st' hz H; cbn [iloop] in H.
-    - injection H as <- _ _ _ _. reflexivity.
-    - destruct (b <? eS e).
-      + injection H as <- _ _ _ _. reflexivity.
-      + destruct (iloop St VS mk1 app spare c (so_st (istep St VS mk1 app spare c st e a b v prev)) r a b v
-                        (Some (so_cur (istep St VS mk1 app spare c st e a b v prev)))) as [[[[r2 pd2] pv2] st2] hz2] eqn:Hrec.
-        injection H as <- _ _ _ _. cbn [map]. rewrite istep_tree_key. f_equal. eapply IH. exact Hrec.
-  Qed.
-
-  Lemma iloop_prev_some c : forall es st a b v p r' pd pv st' hz,
-    iloop St VS mk1 app spare c st es a b v (Some p) = (r', pd, pv, st', hz) -> pv <> None.
-  Proof.
-    induction es as [|e r IH]; intros st a b v p r' pd pv st' hz H; cbn [iloop] in H.
-    - injection H as _ _ <- _ _. discriminate.
-    - destruct (b <? eS e).
-      + injection H as _ _ <- _ _. discriminate.
-      + destruct (iloop St VS mk1 app spare c (so_st (istep St VS mk1 app spare c st e a b v (Some p))) r a b v
-                        (Some (so_cur (istep St VS mk1 app spare c st e a b v (Some p))))) as [[[[r2 pd2] pv2] st2] hz2] eqn:Hrec.
-        injection H as _ _ <- _ _. eapply IH. exact Hrec.
-  Qed.
-
-  (* the loop found nothing (prev stays nil) exactly when the first candidate lies beyond b *)
-  Lemma iloop_prev_none c es st a b v r' pd pv st' hz :
-    iloop St VS mk1 app spare c st es a b v None = (r', pd, pv, st', hz) ->
-    (pv = None <-> match es with [] => True | e :: _ => b < eS e end).
-  Proof.
-    intros H. destruct es as [|e r]; cbn [iloop] in H.
-    - injection H as _ _ <- _ _. tauto.
-    - destruct (Z.ltb_spec b (eS e)) as [Hlt|Hge].
-      + injection H as _ _ <- _ _. tauto.
-      + destruct (iloop St VS mk1 app spare c (so_st (istep St VS mk1 app spare c st e a b v None)) r a b v
-                        (Some (so_cur (istep St VS mk1 app spare c st e a b v None)))) as [[[[r2 pd2] pv2] st2] hz2] eqn:Hrec.
-        injection H as _ _ <- _ _. apply iloop_prev_some in Hrec. split; [intros; contradiction|lia].
-  Qed.
-End LoopFacts.
 
 Lemma naive_cons a' b' v' r q :
   naive ((a', b', v') :: r) q = (if (a' <=? q) && (q <=? b') then [v'] else []) ++ naive r q.
@@ -547,3 +602,67 @@ Proof.
     destruct (Z.leb_spec a b); [|lia]. rewrite fold_left_app in Hfold. cbn [fold_left] in Hfold.
     rewrite Hfold. exists L, hz. split; [reflexivity|exact HInv].
 Qed.
+
+(* a whole history with the repaired code *)
+Lemma prun_repaired : forall ops1 t ops0 flags hz0,
+  Inv t ops0 -> Forall valid_op ops1 ->
+  exists t' hz, prun repaired t tt ops1 flags hz0 =
+                Some (t', tt, flags ++ map (fun k => forallb (disjoint_b (fst (fst (nth k (ops0 ++ ops1) (0, 0, O)))) (snd (fst (nth k (ops0 ++ ops1) (0, 0, O)))))
+                                                       (firstn k (ops0 ++ ops1)))
+                                          (seq (length ops0) (length ops1)), hz)
+                /\ Inv t' (ops0 ++ ops1).
+Proof.
+  induction ops1 as [|[[a b] v] r IH]; intros t ops0 flags hz0 HI Hv.
+  - cbn [prun irun length seq map]. rewrite !app_nil_r. exists t, hz0. split; [reflexivity|exact HI].
+  - inversion Hv as [|? ? Hop Hv']; subst. cbn [valid_op] in Hop.
+    destruct (pinsert_repaired t ops0 a b v HI Hop) as [t1 [hz1 [Hins HI1]]].
+    unfold prun. cbn [irun]. fold pinsert. rewrite Hins. fold prun.
+    destruct (IH t1 (ops0 ++ [(a, b, v)]) (flags ++ [forallb (disjoint_b a b) ops0]) (hz0 || hz1) HI1 Hv') as [t2 [hz2 [Hrun HI2]]].
+    rewrite <- app_assoc in Hrun, HI2. cbn [app] in Hrun, HI2.
+    exists t2, hz2. split; [|exact HI2]. rewrite Hrun. f_equal. f_equal. f_equal.
+    rewrite <- app_assoc. f_equal. cbn [length seq map]. f_equal.
+    + rewrite app_nth2 by lia. rewrite Nat.sub_diag. cbn [nth fst snd].
+      rewrite firstn_app, firstn_all, Nat.sub_diag. cbn [firstn]. rewrite app_nil_r. reflexivity.
+    + rewrite app_length. cbn [length]. rewrite Nat.add_1_r. reflexivity.
+Qed.
+
+(* ------------------------------------------------------------------ Heap: the Go slices *)
+Definition swf (h : heap) (s : slice) : Prop :=
+  (sarr s < length h)%nat /\ (slen s <= length (nth (sarr s) h []))%nat.
+Definition hext (h h' : heap) : Prop := exists x, h' = h ++ x.
+(* h' extends h, s is a well-formed slice of h' and reads l *)
+Definition alloc (h h' : heap) (s : slice) (l : list nat) : Prop := hext h h' /\ swf h' s /\ sread h' s = l.
+
+Lemma hext_refl h : hext h h. Proof. exists []. symmetry. apply app_nil_r. Qed.
+Lemma hext_trans h1 h2 h3 : hext h1 h2 -> hext h2 h3 -> hext h1 h3.
+Proof. intros [x ->] [y ->]. exists (x ++ y). symmetry. apply app_assoc. Qed.
+
+Lemma swf_ext h h' s : hext h h' -> swf h s -> swf h' s /\ sread h' s = sread h s.
+Proof.
+  intros [x ->] [H1 H2]. unfold swf, sread. rewrite app_length, app_nth1 by exact H1.
+  split; [split; [lia|exact H2]|reflexivity].
+Qed.
+
+Lemma hsingle_ok h v h' s : hsingle h v = (h', s) -> alloc h h' s [v].
+Proof.
+  unfold hsingle. intros H. injection H as <- <-. unfold alloc, swf, sread. cbn [sarr slen].
+  rewrite app_length, app_nth2, Nat.sub_diag by lia. cbn [length nth firstn].
+  split; [exists [[v]]; reflexivity|]. split; [split; lia|reflexivity].
+Qed.
+
+Lemma happend_ok clip h s v h' s' :
+  swf h s -> clip = true \/ hspare s = false -> happend clip h s v = (h', s') -> alloc h h' s' (sread h s ++ [v]).
+Proof.
+  intros [H1 H2] Hsafe. unfold happend.
+  assert (Hno : Nat.ltb (slen s) (if clip then slen s else scap s) = false).
+  { destruct Hsafe as [->|Hs]; [apply Nat.ltb_irrefl|]. destruct clip; [apply Nat.ltb_irrefl|exact Hs]. }
+  rewrite Hno. intros H. injection H as <- <-. unfold alloc, swf, sread. cbn [sarr slen].
+  rewrite app_length, app_nth2, Nat.sub_diag by lia. cbn [length nth].
+  assert (Hlen : length (firstn (slen s) (nth (sarr s) h [])) = slen s) by (apply firstn_length_le; exact H2).
+  split; [eexists; reflexivity|]. split.
+  - split; [lia|]. rewrite app_length. cbn [length]. fold (sread h s). unfold sread. rewrite Hlen. lia.
+  - replace (S (slen s)) with (length (firstn (slen s) (nth (sarr s) h []) ++ [v])) by (rewrite app_length, Hlen; cbn; lia).
+    change (v :: repeat 0%nat ?n) with ([v] ++ repeat 0%nat n).
+    rewrite app_assoc. rewrite firstn_app, firstn_all, Nat.sub_diag. cbn [firstn]. rewrite app_nil_r. reflexivity.
+Qed.
+
